@@ -68,7 +68,7 @@ fn tls_kd(o: &huginn_net_tls::TlsClientOutput) -> Option<KD> {
 }
 
 /// What the workers do per packet, run sequentially on one state.
-fn sequential(kind: Kind, frames: &[Vec<u8>], max_conn: usize) -> Vec<KD> {
+pub fn sequential(kind: Kind, frames: &[Vec<u8>], max_conn: usize) -> Vec<KD> {
     let mut out = vec![];
     match kind {
         Kind::Tcp => {
@@ -317,7 +317,7 @@ pub fn run_pool(kind: Kind, n: usize, queue: usize, batch: usize, timeout_ms: u6
     PoolRun { results, sentinel_results: seen, outcomes, dispatched, dropped, wdropped, timed_out }
 }
 
-fn group(rs: &[KD]) -> String {
+pub fn group(rs: &[KD]) -> String {
     let mut m: BTreeMap<&str, Vec<&str>> = BTreeMap::new();
     for (k, d) in rs {
         m.entry(k).or_default().push(d);
@@ -325,7 +325,7 @@ fn group(rs: &[KD]) -> String {
     m.iter().map(|(k, v)| format!("{}={}", k, v.join(";"))).collect::<Vec<_>>().join("|")
 }
 
-fn conns_for(kind: Kind, r: &mut Rng) -> Vec<Conn> {
+pub fn conns_for(kind: Kind, r: &mut Rng) -> Vec<Conn> {
     let v6 = r.chance(1, 5);
     let n = r.range(2, 8) as usize;
     let eps = endpoints(r, n, v6);
@@ -352,21 +352,57 @@ fn conns_for(kind: Kind, r: &mut Rng) -> Vec<Conn> {
         .collect()
 }
 
+/// Round-robin interleaving: every connection is live at the same time.
+pub fn round_robin(conns: &[Conn]) -> Vec<(usize, usize)> {
+    let mut out = vec![];
+    let maxlen = conns.iter().map(|c| c.segs.len()).max().unwrap_or(0);
+    for i in 0..maxlen {
+        for (c, conn) in conns.iter().enumerate() {
+            if i < conn.segs.len() {
+                out.push((c, i));
+            }
+        }
+    }
+    out
+}
+
 pub fn run(ctx: &mut Ctx) {
     let mut r = ctx.rng.fork();
     let rounds = ctx.n(40, 600);
-    for _ in 0..rounds {
+    for round in 0..rounds {
         for kind in [Kind::Tcp, Kind::Http, Kind::Tls] {
-            let conns = conns_for(kind, &mut r);
-            let order = interleave(&mut r, &conns);
-            let frames: Vec<Vec<u8>> = order.iter().map(|&(c, i)| net::eth_bytes(&conns[c].segs[i])).collect();
-            let seq = sequential(kind, &frames, 1000);
             let n = *r.pick(&[1usize, 2, 3, 4, 8, 16]);
+            // every third round: connection capacity exactly as large as the sequential analyzer needs, all
+            // connections concurrently live and (as far as the public hash lets us choose) on ONE worker —
+            // "within the configured connection capacity" must mean the same in parallel mode
+            let tight = round % 3 == 2;
+            let mut conns = conns_for(kind, &mut r);
+            if tight && n > 1 {
+                let mut same: Vec<Conn> = vec![];
+                let mut guard = 0;
+                while same.len() < 5 && guard < 400 {
+                    guard += 1;
+                    for c in conns_for(kind, &mut r) {
+                        let f0 = net::eth_bytes(&c.segs[0]);
+                        let dup = same.iter().any(|x| (x.client == c.client && x.server == c.server) || (x.client == c.server && x.server == c.client));
+                        if !dup && worker_of(kind, &f0, n) == Some(0) && same.len() < 5 {
+                            same.push(c);
+                        }
+                    }
+                }
+                if same.len() >= 3 {
+                    conns = same;
+                }
+            }
+            let order = if tight { round_robin(&conns) } else { interleave(&mut r, &conns) };
+            let frames: Vec<Vec<u8>> = order.iter().map(|&(c, i)| net::eth_bytes(&conns[c].segs[i])).collect();
+            let max_conn = if tight { conns.len() * if kind == Kind::Tcp { 4 } else { 1 } } else { 1000 };
+            let seq = sequential(kind, &frames, max_conn);
             let batch = *r.pick(&[1usize, 8, 32]);
             let timeout = *r.pick(&[1u64, 10]);
-            let run = run_pool(kind, n, frames.len() + 64, batch, timeout, 1000, vec![frames.clone()], &mut r);
+            let run = run_pool(kind, n, frames.len() + 64, batch, timeout, max_conn, vec![frames.clone()], &mut r);
             let mut l = Line::op("C10.pool");
-            l.tok(kind.name()).usize(n).usize(batch).nat(timeout).usize(frames.len()).usize(conns.len());
+            l.tok(&format!("{}{}", kind.name(), if tight { "-tightcap" } else { "" })).usize(n).usize(batch).nat(timeout).usize(frames.len()).usize(conns.len());
             l.usize(seq.len());
             l.text(&group(&seq));
             let all_queued = run.outcomes.iter().all(|o| o.1);
